@@ -31,7 +31,7 @@ type c13Scenario struct {
 var c13Flavours = []string{
 	"paths", "alias", "unmatched-role", "override-inbound", "explicit", "alias-conflict", "parent-expr", "ipc",
 	"unmatched-channel", "override-outbound", "aggregator-level", "alias-conflict", "unmatched-alias", "alias",
-	"alias-same-task", "template-connect-without-target", "inbound-explicit", "mixed", "override-inbound", "unmatched-role",
+	"alias-same-task", "template-connect-without-target", "inbound-explicit", "alias-conflict-twin-ports", "override-inbound", "unmatched-role",
 }
 
 var c13Types = []string{"push", "pull", "pub", "sub"}
@@ -81,6 +81,45 @@ func c13Gen(c *vlib.Ctx, idx int) c13Scenario {
 	wf := fmt.Sprintf("c13w%d", idx)
 	root := &roleSpec{Name: wf, Defaults: []kv{{"hosts", `["host1"]`}, {"deploy_timeout", "60s"}}}
 	sc.Root = root
+	if fl == "alias-conflict-twin-ports" {
+		// Two claimants of one alias on two DIFFERENT hosts, each with exactly one tcp inbound channel and the
+		// same transport: both get their agent's first free port >= 9000, i.e. equal port numbers. The two
+		// endpoints differ (by host) and must still be rejected.
+		sc.Hosts = 2 + r.Intn(2)
+		tr := c13Transports[r.Intn(5)]
+		mk := func(name, host string) *roleSpec {
+			return &roleSpec{Name: name, Critical: true, Constraints: []kv{{"machine_id", host}},
+				Task: &tplSpec{Name: wf + "-" + name, Mode: pick(r, "fairmq", "direct")}}
+		}
+		a, b := mk("ta", "host1"), mk("tb", "host2")
+		chA := chanSpec{Name: "ina", Type: c13Types[r.Intn(4)], Transport: tr, Addressing: pick(r, "", "tcp"), Global: "twinport"}
+		chB := chanSpec{Name: pick(r, "ina", "inb"), Type: c13Types[r.Intn(4)], Transport: tr, Addressing: pick(r, "", "tcp"), Global: "twinport"}
+		if r.Intn(2) == 0 {
+			a.Bind = append(a.Bind, chA)
+		} else {
+			a.Task.Bind = append(a.Task.Bind, chA)
+		}
+		if r.Intn(2) == 0 {
+			b.Bind = append(b.Bind, chB)
+		} else {
+			b.Task.Bind = append(b.Task.Bind, chB)
+		}
+		// the consumer: one of the claimants or a third task without inbound channels
+		consumer := b
+		root.Children = []*roleSpec{a, b}
+		if r.Intn(2) == 0 {
+			consumer = mk("tc", fmt.Sprintf("host%d", 1+r.Intn(sc.Hosts)))
+			root.Children = append(root.Children, consumer)
+		}
+		if r.Intn(2) == 0 { // the claimants in the other document order
+			root.Children[0], root.Children[1] = root.Children[1], root.Children[0]
+		}
+		consumer.Connect = append(consumer.Connect, chanSpec{Name: "out0", Type: c13Types[r.Intn(4)], Target: "::twinport"})
+		sc.Fault = "alias-conflict-two-tasks/same-port-different-hosts"
+		sc.Notes = append(sc.Notes, "alias ::twinport is claimed by ta on host1 and tb on host2; each has a single tcp inbound channel, so both are allocated the same port number")
+		root.link(nil)
+		return sc
+	}
 	nTasks := 2 + r.Intn(5)
 	groups := map[int]*roleSpec{}
 	var tasks []*roleSpec
@@ -409,6 +448,27 @@ func c13Run(c *vlib.Ctx, idx int) {
 	if sc.Fault != "" {
 		c.Count("faulty_workflows", 1)
 		c.Count("faulty_"+strings.SplitN(sc.Fault, "-", 2)[0], 1)
+		if strings.HasSuffix(sc.Fault, "same-port-different-hosts") {
+			// was the intended coincidence really produced? (ports of the ACCEPT minus the control port)
+			ta, tb := byPath[sc.Root.Name+".ta"], byPath[sc.Root.Name+".tb"]
+			dyn := func(t *simmesos.LaunchedTask) []uint64 {
+				var out []uint64
+				if t != nil {
+					for _, p := range t.Ports {
+						if p != t.ControlPort {
+							out = append(out, p)
+						}
+					}
+				}
+				return out
+			}
+			da, db := dyn(ta), dyn(tb)
+			if ta != nil && tb != nil && ta.Hostname != tb.Hostname && len(da) == 1 && len(db) == 1 && da[0] == db[0] {
+				c.Count("alias_conflicts_same_port_different_hosts", 1)
+			} else {
+				c.Count("alias_conflicts_twin_ports_not_produced", 1)
+			}
+		}
 		if cerr == nil {
 			switch {
 			case strings.HasPrefix(sc.Fault, "unmatched"):
